@@ -320,6 +320,20 @@ pub fn all_scenarios(opts: &Opts, st: &mut Stats) -> Vec<(History, Vec<String>)>
         s.simple("cancel_bid", "exec1", 2, None, true);
         out.push(s.done());
     }
+    // S13: the contract base also listed as a convertible denomination: asks in it are plain
+    {
+        let mut s = Script::new("base-listed-as-convertible", opts, st);
+        s.market(&Market { convs: vec!["conv0", "base"], ask_fee: Some(("feea", "0.1")), ..Default::default() });
+        s.ask(1, "alice", "base", "10", 10);
+        s.bid(2, "bobby", "10", 10);
+        s.mtch(1, 2, "10", 6, true);
+        s.ask(3, "carol", "conv0", "10", 4);
+        s.mtch(3, 2, "10", 4, false);
+        s.approve(3, "appr1", 4);
+        s.mtch(3, 2, "10", 4, true);
+        s.simple("cancel_ask", "alice", 1, None, true);
+        out.push(s.done());
+    }
     // S12: KF1 - pro-rata quotient formed in 28-digit decimals, at amounts where fee x quote ~ 1e27+
     {
         let mut s = Script::new("kf1-large-amount-quotient", opts, st);
